@@ -901,32 +901,38 @@ theorem replaceGo_fuel (d : Int × Int) (f : Nat) (s : List Char) (hf : s.length
 
 /-! ### the `formulas` table -/
 
-theorem getElem?_set_self' {α} (l : List α) (i : Nat) (a : α) (h : i < l.length) : (l.set i a)[i]? = some a := by
-  simp [h]
-
 theorem Table.lookup_store_same (t : Table) (si : Nat) (g : Group) : (t.store si g).lookup si = some g := by
-  unfold Table.store Table.lookup
-  by_cases h : t.length ≤ si
-  · rw [if_pos h, getElem?_set_self' _ _ _ (by simp; omega)]
-  · rw [if_neg h, getElem?_set_self' _ _ _ (by omega)]
+  simp [Table.store, Table.lookup]
 
 theorem Table.lookup_store_ne (t : Table) (si sj : Nat) (g : Group) (hne : si ≠ sj) :
     (t.store sj g).lookup si = t.lookup si := by
+  have hf : ∀ l : Table, (l.filter (fun p => p.1 != sj)).find? (fun p => p.1 == si) = l.find? (fun p => p.1 == si) := by
+    intro l
+    induction l with
+    | nil => rfl
+    | cons q qs ih =>
+      by_cases h1 : q.1 = sj
+      · have h2 : (q.1 == si) = false := by
+          simp only [beq_eq_false_iff_ne, ne_eq]; intro e; exact hne (e.symm.trans h1)
+        have h3 : (q.1 != sj) = false := by simp [h1]
+        rw [List.filter_cons, h3, List.find?_cons, h2]
+        simpa using ih
+      · have h3 : (q.1 != sj) = true := by simp [h1]
+        rw [List.filter_cons, h3]
+        simp only [if_true, List.find?_cons]
+        cases (q.1 == si)
+        · exact ih
+        · rfl
   unfold Table.store Table.lookup
-  by_cases h : t.length ≤ sj
-  · rw [if_pos h, List.getElem?_set_ne (Ne.symm hne)]
-    by_cases h2 : si < t.length
-    · rw [List.getElem?_append_left h2]
-    · rw [List.getElem?_append_right (by omega)]
-      have e : t[si]? = none := List.getElem?_eq_none (by omega)
-      rw [e]
-      cases h3 : (List.replicate (sj + 1 - t.length) (none : Option Group))[si - t.length]? with
-      | none => rfl
-      | some v =>
-        have := List.mem_of_getElem? h3
-        rw [List.mem_replicate] at this
-        rw [this.2]
-  · rw [if_neg h, List.getElem?_set_ne (Ne.symm hne)]
+  have h0 : (sj == si) = false := by simp; exact fun e => hne e.symm
+  simp only [List.find?, h0, hf]
+
+/-- the table never holds more entries than groups were declared (`si` values do not matter) -/
+theorem Table.store_length (t : Table) (si : Nat) (g : Group) : (t.store si g).length ≤ t.length + 1 := by
+  unfold Table.store
+  simp only [List.length_cons]
+  have := List.length_filter_le (fun p : Nat × Group => p.1 != si) t
+  omega
 
 /-! ### the `ref` attribute -/
 
